@@ -58,7 +58,7 @@ type Term struct {
 type TermTable struct {
 	tab   map[string]*Term
 	next  int
-	vars  []*Term // declared input variables in creation order
+	vars  []*Term           // declared input variables in creation order
 	ufs   map[string]string // UF name -> declaration
 	ufOrd []string
 }
